@@ -20,7 +20,12 @@ type c14Case struct {
 	Trim    bool     `json:"trim"`
 	LStrip  bool     `json:"lstrip"`
 	WErr    int      `json:"writer_error,omitempty"` // which error the failing caller's writer reports
+	// BadKey: afterwards every variant is also run with a context the engine must reject (a key
+	// that is no identifier): they must all refuse it, whatever the template consists of
+	BadKey bool `json:"bad_key,omitempty"`
 }
+
+var c14BadKey bool // set while the bad-key round of a case runs
 
 // plainWriter implements only io.Writer (no WriteString), records everything
 type plainWriter struct{ buf []byte }
@@ -108,7 +113,11 @@ func errText(e error) string {
 func c14RunAll(tpl *pongo2.Template, variant, k int, base *c14Result, partial string) (c14Result, int, error) {
 	mk := func() (pongo2.Context, *tickState) {
 		ts := &tickState{failAt: k}
-		return progContext(variant, ts), ts
+		ctx := progContext(variant, ts)
+		if c14BadKey {
+			ctx["not an identifier"] = 1
+		}
+		return ctx, ts
 	}
 	ctx, ts := mk()
 	s, err := tpl.Execute(ctx)
@@ -265,6 +274,18 @@ func checkC14(c any, r *Rec) error {
 			r.Add("writer_faults", 2)
 		}
 	}
+	if cs.BadKey {
+		c14BadKey = true
+		res, _, e := c14RunAll(tpl, cs.Variant, 0, nil, "")
+		c14BadKey = false
+		if e != nil {
+			return wrap(fmt.Errorf("with a context key that is no identifier: %v", e))
+		}
+		if res.err == nil {
+			return wrap(fmt.Errorf("a context with the key %q was accepted (rendered %q)", "not an identifier", res.out))
+		}
+		r.Class("bad-key-round")
+	}
 	// the first execution of a freshly compiled template through the unbuffered entry point
 	// must already agree (options such as TrimBlocks are not a side effect of the buffered paths)
 	if _, fresh, _, err := compileProgram(cs.Prog, cs.Trim, cs.LStrip); err == nil {
@@ -289,14 +310,20 @@ func checkC14(c any, r *Rec) error {
 
 var _ = register(&propSpec{
 	ID:   "C14.variants",
-	Rule: "generated multi-file programs with {{ tick() }} outputs; for each program the number T of tick calls is measured and EVERY fault position k in 1..T (cap 40) is injected, plus a caller's writer failing after 0/1/mid/len-1 bytes (three failure styles; the reported error drawn from a custom error, io.EOF, io.ErrShortWrite, io.ErrUnexpectedEOF, io.ErrClosedPipe, a wrapped io.EOF, bytes.ErrTooLarge); Execute, ExecuteBytes, ExecuteWriter (io.Writer, *bytes.Buffer, *strings.Builder) and ExecuteWriterUnbuffered must agree on bytes and error text, ExecuteWriter must have written nothing on failure, the unbuffered writer a prefix of the fault-free output, and a fault-free run after the failures must reproduce the original bytes. Non-trivial: T >= 2; distinct by program+context+options.",
+	Rule: "generated multi-file programs with {{ tick() }} outputs; for each program the number T of tick calls is measured and EVERY fault position k in 1..T (cap 40) is injected, plus a caller's writer failing after 0/1/mid/len-1 bytes (three failure styles; the reported error drawn from a custom error, io.EOF, io.ErrShortWrite, io.ErrUnexpectedEOF, io.ErrClosedPipe, a wrapped io.EOF, bytes.ErrTooLarge); Execute, ExecuteBytes, ExecuteWriter (io.Writer, *bytes.Buffer, *strings.Builder) and ExecuteWriterUnbuffered must agree on bytes and error text, ExecuteWriter must have written nothing on failure, the unbuffered writer a prefix of the fault-free output, and a fault-free run after the failures must reproduce the original bytes; in a third of the cases every variant is also run with a context that must be rejected (a key that is no identifier) - all must refuse it, also for templates that are nothing but text. Non-trivial: T >= 2; distinct by program+context+options.",
 	Gen: func(t *rapid.T) any {
+		prog := genProgram(t, progOpts{ticks: true, includes: true, inherit: true, stateful: true, errProne: drawInt(t, 0, 4, "errprone") == 0, maxDepth: 3, maxNodes: 25})
+		if drawInt(t, 0, 9, "textonly") == 0 {
+			// degenerate shapes: nothing but literal text, a single variable, an empty template
+			prog.Files[prog.Entry] = pick(t, "degenerate", []string{"just text\n", "", "{{ name }}", "a{# c #}b", "{% comment %}x{% endcomment %}"})
+		}
 		return &c14Case{
-			Prog:    genProgram(t, progOpts{ticks: true, includes: true, inherit: true, stateful: true, errProne: drawInt(t, 0, 4, "errprone") == 0, maxDepth: 3, maxNodes: 25}),
+			Prog:    prog,
 			Variant: drawInt(t, 0, 11, "variant"),
 			Trim:    drawBool(t, "trim"),
 			LStrip:  drawBool(t, "lstrip"),
 			WErr:    drawInt(t, 0, len(c14WriterErrs)-1, "writererr"),
+			BadKey:  drawInt(t, 0, 2, "badkey") == 0,
 		}
 	},
 	New:   func() any { return &c14Case{} },
